@@ -35,7 +35,7 @@ def dyadic_train(rng, ts, te, grid, nmax, p_edge=0.25):
         ks.add(0)
     if rng.random() < p_edge:
         ks.add(grid)
-    return sorted(ts + k * T / grid for k in ks)
+    return sorted({ts + k * T / grid for k in ks})
 
 
 def share_spikes(rng, src, dst):
